@@ -214,7 +214,7 @@ succeeded(const char *phase, pid_t pid, int status)
 	return false;
 }
 
-static void
+static bool
 buildobj(struct input *input, char *output)
 {
 	const char *phase;
@@ -224,15 +224,17 @@ buildobj(struct input *input, char *output)
 	bool success = true;
 
 	if (input->filetype == OBJ)
-		return;
+		return true;
 	if (input->stages & 1<<LINK) {
 		input->stages &= ~(1<<LINK);
 		output = strdup("/tmp/cproc-XXXXXX");
 		if (!output)
 			fatal("strdup:");
 		fd = mkstemp(output);
-		if (fd < 0)
-			fatal("mkstemp:");
+		if (fd < 0) {
+			warn("mkstemp:");
+			return false;
+		}
 		close(fd);
 	} else if (output) {
 		if (strcmp(output, "-") == 0)
@@ -286,11 +288,9 @@ kill:
 			success = false;
 		}
 	}
-	if (!success) {
-		if (output)
-			unlink(output);
-		exit(1);
-	}
+	if (!success && output)
+		unlink(output);
+	return success;
 }
 
 static void
@@ -316,14 +316,14 @@ buildexe(struct input *inputs, size_t ninputs, char *output)
 
 	ret = spawn(&pid, &s->cmd, NULL);
 	if (ret)
-		fatal("%s: spawn \"%s\": %s", s->name, *(char **)s->cmd.val, strerror(errno));
-	if (waitpid(pid, &status, 0) < 0)
+		warn("%s: spawn \"%s\": %s", s->name, *(char **)s->cmd.val, strerror(ret));
+	else if (waitpid(pid, &status, 0) < 0)
 		fatal("waitpid %ju:", (uintmax_t)pid);
 	for (i = 0; i < ninputs; ++i) {
 		if (inputs[i].filetype != OBJ)
 			unlink(inputs[i].name);
 	}
-	exit(!succeeded(s->name, pid, status));
+	exit(ret || !succeeded(s->name, pid, status));
 }
 
 static char *
@@ -372,7 +372,7 @@ main(int argc, char *argv[])
 	enum filetype filetype = 0;
 	char *arg, *end, *output = NULL, *arch, *qbearch;
 	struct array inputs = {0}, *cmd;
-	struct input *input;
+	struct input *input, *prev;
 	size_t i;
 
 	argv0 = progname(argv[0], "cproc");
@@ -578,7 +578,14 @@ main(int argc, char *argv[])
 			continue;
 		/* only run up through the last stage */
 		input->stages &= (1 << last + 1) - 1;
-		buildobj(input, output);
+		if (!buildobj(input, output)) {
+			/* remove the temporary objects of the inputs already built */
+			for (prev = inputs.val; last == LINK && prev != input; ++prev) {
+				if (!prev->stages)
+					unlink(prev->name);
+			}
+			return 1;
+		}
 	}
 	if (last == LINK) {
 		if (!output)
